@@ -5,6 +5,7 @@ import (
 	"fmt"
 	"hash/fnv"
 	"os"
+	"runtime/pprof"
 	"sort"
 	"strings"
 )
@@ -132,6 +133,12 @@ func runShard(leg string, shard, of int, thorough bool) {
 	c := &shardCtx{shard: shard, of: of, seen: map[uint64]struct{}{}, shapes: map[uint64]struct{}{},
 		viol: map[string]*shardViol{}, harn: map[string]*shardViol{}}
 	c.res.Leg, c.res.Shard = leg, shard
+	if pf := os.Getenv("C17_PROF"); pf != "" { // sizing aid
+		if f, err := os.Create(pf); err == nil {
+			pprof.StartCPUProfile(f)
+			defer pprof.StopCPUProfile()
+		}
+	}
 	c.res.Extra = map[string]int64{}
 	switch leg {
 	case "grammar":
